@@ -1160,4 +1160,40 @@ class C14(Prop):
         return impl.startswith("SAME") or case.startswith("L ")
 
 
-PROPS = {p.id: p for p in [C06(), C19(), C11(), C16(), C13(), C10(), C15(), C09(), C12(), C14()]}
+
+# ---------------------------------------------------------------------------
+# C07: compilation is deterministic
+# ---------------------------------------------------------------------------
+class C07(Prop):
+    id = "C07"
+    gens = ["GenHashSites"]
+    header = 1
+    n_quick = 10
+    n_thorough = 10
+    design_ref = "DESIGN.md §4 C07"
+    assumptions = [
+        "the only source of run-to-run variation in this single-threaded library is the iteration order of std HashMap/HashSet (per-instance random state); no clocks, threads, addresses or environment reads outside metal_invoker were found",
+        "inventory: tools/inventory.py finds the places where a hash container is walked by name-based type inference (over-approximating) and cross-checks every `for` loop against clippy::iter_over_hash_type, which uses the compiler's own types; method-chain walks of a hash container bound to a name the script cannot type are only caught by the runtime comparison",
+        "each listed site is discharged by a Coq theorem (sort by a total order on distinct elements, sort_by distinct keys, the usage fixpoint, the scope walk) or by review (set semantics, commutative reductions, order not observed)",
+        "runtime search: every program is compiled 8 times in one process and in 2 fresh processes per target and pipeline mode; outputs, metadata, stages, pipeline state and diagnostics are compared byte for byte",
+    ]
+
+    def kind(self, case):
+        w = case.split()
+        return ("repo-file " if w[1].startswith("file:") else w[1] + " ") + w[2]
+
+    def comparable(self, case, impl, model):
+        return False
+
+    def oracle(self, case, impl, model=None):
+        if impl.startswith("DIFF"):
+            return "two compilations of the same input differ: " + impl[5:400]
+        if impl.startswith("TIMEOUT"):
+            return "compilation did not terminate"
+        return None
+
+    def nontrivial(self, case, impl):
+        return impl.startswith("SAME") and impl.rstrip().endswith("OK")
+
+
+PROPS = {p.id: p for p in [C06(), C19(), C11(), C16(), C13(), C10(), C15(), C09(), C12(), C14(), C07()]}
